@@ -879,7 +879,7 @@ pub fn run_c12(tier: Tier) -> Report {
             vs.dedup();
             vs
         };
-        let mut add = |w: u16, h: u16, is_x: bool, vs: &[i32], cases: &mut Vec<Vec<Pic>>| {
+        let add = |w: u16, h: u16, is_x: bool, vs: &[i32], cases: &mut Vec<Vec<Pic>>| {
             let (mbw, mbh) = mb_grid(w, h);
             let reference = noise_intra(umv_hdr(w, h, false, 0), seed);
             for &v in vs {
